@@ -41,6 +41,10 @@ def gen_cases(ctx):
                      "standalone_midhistory"][i % 5]
         c["reward"] = rng.choice(["makespan", "idle"])
         yield c
+    for i in range(ctx.scale(2, 56)):
+        # more than 256 operations in one job, more than 100 on one machine
+        yield {"kind": "standalone", "reward": "makespan", "instance": gen.long_instance(rng),
+               "filter": None, "policy": "random_ready", "seed": rng.randrange(2**31) * 9 + 1}
     for i in range(ctx.scale(60, 9000)):
         yield {"kind": "multi_env", "seed": rng.randrange(2**31),
                "reward": rng.choice(["makespan", "idle"]),
@@ -184,6 +188,33 @@ def run_case(ctx, case):
                 ctx.count("stale_observers_resubscribed_to_a_clean_dispatcher")
             run.d.reset(); run.r.reset()
             ctx.count("after_reset_histories")
+        swapper = None
+        if kind == "standalone" and case["seed"] % 9 == 4 and mk in run.d.subscribers:
+            # an observer notified BEFORE the makespan reward detaches it during one of its updates
+            # and subscribes something else in the same breath (subscriber count unchanged): the
+            # detached reward observer gets nothing for that dispatch nor afterwards
+            from job_shop_lib.dispatching import DispatcherObserver
+
+            class Swapper(DispatcherObserver):
+                _is_singleton = False
+
+                def __init__(self, dispatcher, target, at):
+                    super().__init__(dispatcher)
+                    self.target, self.at, self.n, self.detached_with = target, at, 0, None
+
+                def update(self, scheduled_operation):
+                    self.n += 1
+                    if self.n == self.at and self.target in self.dispatcher.subscribers:
+                        self.detached_with = len(self.target.rewards)
+                        self.dispatcher.unsubscribe(self.target)
+                        Swapper(self.dispatcher, self.target, 10**9)
+
+                def reset(self):
+                    pass
+            swapper = Swapper(run.d, mk, rng.randint(1, 3))
+            # move it in front of the reward observers
+            run.d.subscribers.remove(swapper); run.d.subscribers.insert(0, swapper)
+            ctx.count("histories_with_reward_detached_mid_notification")
         raiser = None
         if kind in ("standalone", "standalone_reset") and case["seed"] % 7 == 2:
             raiser = make_raiser(run.d, rng)
@@ -210,6 +241,15 @@ def run_case(ctx, case):
                                  {"note": "dispatch undone after an observer failure"})
                     continue
             k += 1
+            if swapper is not None and swapper.detached_with is not None:
+                ctx.count("detached_reward_checks")
+                if len(mk.rewards) != swapper.detached_with:
+                    ctx.violation("c13_detached_reward_observer_still_rewarded",
+                                  {"rewards_when_detached": swapper.detached_with,
+                                   "rewards_now": len(mk.rewards), "history": list(run.r.history)})
+                    break
+                check_prefix(ctx, run.r, None, idle, k, kind)
+                continue
             check_prefix(ctx, run.r, mk, idle, k, kind)
             if k == 2 and case["seed"] % 5 == 0 and not run.done() and raiser is None:
                 # a deep copy of the dispatcher (e.g. for look-ahead) is independent: dispatching
